@@ -372,9 +372,9 @@ func TestC03Read(t *testing.T) {
 	logger.Disable()
 	metrics.UseNilMetrics = true
 	rep := core.NewReport("C03", "read", "exploration")
-	rep.Rule = "(a) every unit-scale layout (<=3 files, len 0..5, padding flags, piece length 1..5) x read-cache block size 1..pl+1 x capacity {0, one block, all} x every (begin,length) of every piece, " +
+	rep.Rule = "(a) every unit-scale layout (<=3 files, thorough <=4; len 0..5, padding flags, piece length 1..5) x read-cache block size 1..pl+1 x capacity {0, one block, all} x every (begin,length) of every piece, " +
 		"served by cachedpiece.ReadAt over the real piececache through peerwriter.Piece.Read with the writer loop's buffer discipline, decoded by the reference codec and compared with the flat model; " +
-		"(b) for every distinct piece shape (length + section lengths/padding flags) every history of 2..3 reads (all ranges) with virtual-time gaps {0, <TTL, >TTL} over a fresh cache under testing/synctest; " +
+		"(b) for every distinct piece shape (length + section lengths/padding flags; from the <=3-file layouts; quick: zero-length sections ignored) every history of 2..3 reads (all ranges) with virtual-time gaps {0, <TTL, >TTL} over a fresh cache under testing/synctest; " +
 		"(c) 16 KiB-scale boundary lattice; (d) validPieceRequest on the product of a 32-bit boundary lattice against a big-integer predicate; " +
 		"(e) the real PeerReader on request frames of every lattice length (requests longer than 16 KiB must never be delivered). " +
 		"distinct = accepted layouts + distinct piece shapes + distinct validPieceRequest triples."
@@ -518,6 +518,9 @@ func TestC03Read(t *testing.T) {
 				acc++
 				lc.passA(f, w)
 				for pi := range f.pieces {
+					if len(f.l.Files) > 3 {
+						break // histories: piece shapes of the <=3-file layouts (4-file layouts, thorough only, are covered by the single-read pass)
+					}
 					k := shapeKey(&f.pieces[pi], fullShapes)
 					if old, ok := local[k]; !ok || old.ord > f.ord {
 						local[k] = shapeRef{f.l, f.ord, pi}
